@@ -224,6 +224,7 @@ type harness struct {
 	str     *hx.Stream
 	mstring *hx.Stream
 	cross   *hx.Stream
+	desc    *hx.Stream
 	pipe    *hx.Stream
 	stream  *hx.Stream
 	streamRetries int
@@ -1142,6 +1143,131 @@ func (h *harness) genCross() {
 	}
 }
 
+// ---------- description stream (mirror of other_encs / all_encs / desc_chord in model/Keys.v) ----------
+
+func isSpecial4(k rune) bool {
+	return k == vaxis.KeyTab || k == vaxis.KeyEnter || k == vaxis.KeyEsc || k == vaxis.KeyBackspace
+}
+
+func printableNonUpper(k rune) bool { return k >= 32 && k <= 126 && !(k >= 'A' && k <= 'Z') }
+
+// the code points under which a CSI report may carry the key: Backspace is DEL or BS
+func reportCodes(k rune) []int {
+	if k == vaxis.KeyBackspace {
+		return []int{127, 8}
+	}
+	return []int{int(k)}
+}
+
+// xterm modifyOtherKeys reports of the chord: CSI 27;m;code~ and CSI code;m u
+func otherEncs(k rune, m int) []ansi.Sequence {
+	if !printableNonUpper(k) && !isSpecial4(k) {
+		return nil
+	}
+	locks := []int{0, 128}
+	if isSpecial4(k) {
+		locks = []int{0, 64, 128, 192}
+	}
+	var out []ansi.Sequence
+	for _, n := range reportCodes(k) {
+		for _, l := range locks {
+			out = append(out, ansi.CSI{Parameters: [][]int{{27}, {m + l + 1}, {n}}, Final: '~'})
+			for _, ev := range []bool{false, true} {
+				out = append(out, kittySeq(n, 'u', nil, m, l, ev, nil, false)...)
+			}
+		}
+	}
+	return out
+}
+
+type descEnc struct {
+	seq  ansi.Sequence
+	kind string // legacy | kitty | other
+}
+
+func allEncs(k rune, m int) []descEnc {
+	var out []descEnc
+	for _, s := range legacyEncs(k, m) {
+		out = append(out, descEnc{s, "legacy"})
+	}
+	for _, v := range kittyEncs(k, m) {
+		out = append(out, descEnc{v.seq, "kitty"})
+	}
+	for _, s := range otherEncs(k, m) {
+		out = append(out, descEnc{s, "other"})
+	}
+	return out
+}
+
+func (h *harness) addDesc(k rune, m int, a, b descEnc, tags ...string) {
+	ka := vaxis.VerifDecodeKey(cloneSeq(a.seq))
+	kb := vaxis.VerifDecodeKey(cloneSeq(b.seq))
+	strc := vaxis.Key{Keycode: k, Modifiers: vaxis.ModifierMask(m)}.String()
+	stra, strb := ka.String(), kb.String()
+	js := map[string]interface{}{"chord_key": k, "chord_mods": m, "chord_string": strc,
+		"first": seqJSON(a.seq), "first_kind": a.kind, "first_key": keyJSON(ka), "first_string": stra,
+		"second": seqJSON(b.seq), "second_kind": b.kind, "second_key": keyJSON(kb), "second_string": strb}
+	h.desc.Add(hx.Tuple(fmt.Sprintf("(mkChord %d %d)", k, m), seqTerm(a.seq), seqTerm(b.seq), hx.Runes(strc), hx.Runes(stra), hx.Runes(strb)),
+		js, m != 0 || a.kind != b.kind, append(tags, a.kind+"/"+b.kind)...)
+}
+
+func (h *harness) genDesc() {
+	th := h.cfg.Thorough()
+	var keys []rune
+	for k := rune(32); k <= 126; k++ {
+		if printableNonUpper(k) {
+			keys = append(keys, k)
+		}
+	}
+	keys = append(keys, vaxis.KeyTab, vaxis.KeyEnter, vaxis.KeyEsc, vaxis.KeyBackspace)
+	ofKind := func(es []descEnc, kind string) []descEnc {
+		var out []descEnc
+		for _, e := range es {
+			if e.kind == kind {
+				out = append(out, e)
+			}
+		}
+		return out
+	}
+	for _, k := range keys {
+		for m := 0; m < 64; m++ {
+			es := allEncs(k, m)
+			if th && (isSpecial4(k) || m <= 4 || h.pick(4) == 0) {
+				// every encoding once, against a random other encoding of the chord
+				for _, e := range es {
+					h.addDesc(k, m, e, es[h.pick(len(es))], "every-encoding")
+				}
+				continue
+			}
+			others, kitty, legacy := ofKind(es, "other"), ofKind(es, "kitty"), ofKind(es, "legacy")
+			if isSpecial4(k) {
+				// every report code in both xterm forms against a kitty report, a random pair of xterm
+				// reports, every legacy byte against a random report
+				for _, n := range reportCodes(k) {
+					l := []int{0, 64, 128, 192}[h.pick(4)]
+					tilde := descEnc{ansi.CSI{Parameters: [][]int{{27}, {m + l + 1}, {n}}, Final: '~'}, "other"}
+					us := kittySeq(n, 'u', nil, m, l, h.pick(2) == 0, nil, false)
+					h.addDesc(k, m, tilde, kitty[h.pick(len(kitty))], "special", "code-forms")
+					h.addDesc(k, m, descEnc{us[h.pick(len(us))], "other"}, kitty[h.pick(len(kitty))], "special", "code-forms")
+				}
+				h.addDesc(k, m, others[h.pick(len(others))], others[h.pick(len(others))], "special", "random-pair")
+				for _, e := range legacy {
+					h.addDesc(k, m, e, es[h.pick(len(es))], "special", "legacy-byte")
+				}
+				continue
+			}
+			// printable: the five modifier sets a legacy byte can express, and a sample of the others
+			if m > 4 && h.pick(6) != 0 {
+				continue
+			}
+			h.addDesc(k, m, others[h.pick(len(others))], kitty[h.pick(len(kitty))], "printable", "random-pair")
+			for _, e := range legacy {
+				h.addDesc(k, m, e, others[h.pick(len(others))], "printable", "legacy-byte")
+			}
+		}
+	}
+}
+
 // ---------- pipeline stream: bytes -> fake console -> real Vaxis -> Events() ----------
 
 func (h *harness) genPipeline() []hx.DirectViolation {
@@ -1803,16 +1929,18 @@ func main() {
 		str:     hx.NewStream("string", "model.Keys", "string_case", "c09_string_mismatches", "c09_string_violations"),
 		mstring: hx.NewStream("mstring", "model.Keys", "mstring_case", "c09_mstring_mismatches", "c09_mstring_violations"),
 		cross:   hx.NewStream("cross", "model.Keys", "cross_case", "c09_cross_mismatches", "c09_cross_violations"),
+		desc:    hx.NewStream("desc", "model.Keys", "desc_case", "c09_desc_mismatches", "c09_desc_violations"),
 		pipe:    hx.NewStream("pipeline", "model.Keys", "pipeline_case", "c09_pipeline_mismatches", "c09_pipeline_violations"),
 		stream:  hx.NewStream("stream", "model.Keys model.KeysStream", "stream_case", "c09_stream_mismatches", "c09_stream_violations"),
 		names:   vaxis.VerifKeyNames(),
 		special: vaxis.VerifSpecialsKeys(),
 	}
-	for _, s := range []*hx.Stream{h.oracle, h.decode, h.match, h.str, h.mstring, h.cross, h.pipe, h.stream} {
+	for _, s := range []*hx.Stream{h.oracle, h.decode, h.match, h.str, h.mstring, h.cross, h.desc, h.pipe, h.stream} {
 		s.ShardMax = 1500
 	}
 	h.oracle.ShardMax = 4000
 	h.cross.ShardMax = 150
+	h.desc.ShardMax = 400
 	h.stream.ShardMax = 250
 	t0 := time.Now()
 	h.genOracle()
@@ -1820,18 +1948,20 @@ func main() {
 	h.genMatch()
 	h.genStrings()
 	h.genCross()
+	h.genDesc()
 	direct := h.genPipeline()
 	h.genStream()
 	direct = append(direct, h.streamDirect...)
-	streams := []*hx.Stream{h.oracle, h.decode, h.match, h.str, h.mstring, h.cross, h.pipe, h.stream}
+	streams := []*hx.Stream{h.oracle, h.decode, h.match, h.str, h.mstring, h.cross, h.desc, h.pipe, h.stream}
 	extra := map[string]interface{}{"harness_seconds": time.Since(t0).Seconds(), "stream_attempts_repeated_for_timing": h.streamRetries}
 	cfg.Write("C09", "oracle: Go's unicode tables on ASCII, out-of-range runes, every lower-case rune (stride in quick); "+
 		"decode: decodeKey on legacy bytes, C0, ESC, SS3, every specialsKeys entry x modifier parameters x event types, CSI u with every layout of the optional fields, other scripts, xterm modifyOtherKeys, random and malformed parameter lists; "+
 		"match: Key.Matches of decoded and synthetic events against related/random bindings, each evaluated twice with lock bits toggled; "+
 		"string: Key.String and MatchString of it; mstring: MatchString on printed and malformed binding strings; "+
 		"cross: every both-expressible chord, each legacy encoding against kitty encodings (all pairs in thorough), String() of both and Matches of both against bindings around the chord; "+
+		"desc: every chord of a printable ASCII character / Tab / Enter / Esc / Backspace with each of the 64 modifier sets (all of them for the four special keys, a sample beyond the legacy-expressible sets for characters in quick; every encoding of every chord in thorough), pairs of its legacy, kitty and xterm modifyOtherKeys encodings (CSI 27;m;code~ and CSI code;m u, Backspace under both code points DEL and BS, lock bits, explicit press event), String() of both decoded keys and of Key{Keycode, Modifiers}; "+
 		"pipeline: encodings written byte-wise to the fake console of a real Vaxis, Key events read from Events(), including a bracketed paste and keys behind OSC replies; "+
 		"stream: lists of reports (key reports in every legacy and kitty encoding, OSC/CSI/DCS/APC replies with BEL and ST terminators, the Esc key with a real silence) through ONE ansi.Parser + decodeKey, each report also alone through a fresh parser: every reply/state-changing report followed by fillers and each probe key (every ESC-prefixed key incl. ESC \\), both encodings of each both-expressible chord behind a history, random histories. "+
-		"non-trivial = decode: a special-key, modifier, event, alternate-code or text path is taken; match: the call returned true; string: more than one character; mstring: the call returned true; oracle: the rune has a class or a case mapping; cross: the chord has modifiers or the two protocols differ; pipeline: more than one byte; stream: the last report comes after a reply or an ESC-introduced report",
+		"non-trivial = decode: a special-key, modifier, event, alternate-code or text path is taken; match: the call returned true; string: more than one character; mstring: the call returned true; oracle: the rune has a class or a case mapping; cross: the chord has modifiers or the two protocols differ; desc: the chord has modifiers or the two encodings are of different families; pipeline: more than one byte; stream: the last report comes after a reply or an ESC-introduced report",
 		streams, extra, direct)
 }
